@@ -13,6 +13,7 @@
 #define HX_OUT_MAX OUTMAX
 #include "hctx.h"
 #include <string.h>
+#include "libc.h"
 
 #ifndef TEMPLATE
 #define TEMPLATE "QQ"
@@ -42,7 +43,11 @@ static char expect[HX_OUT_MAX + 8];
 static int elen;
 static int calls[6];
 
-static const char * const item_text[6] = {"1", "7", "\"x\"", "M", "#11a", "#12cd"};
+#define NKINDS 12
+#ifndef KBASE
+#define KBASE 0 /* result kinds KBASE..KBASE+5 are used by this case (all twelve at once did not finish in 600 s) */
+#endif
+static const char * const item_text[NKINDS] = {"1", "7", "\"x\"", "M", "#11a", "#12cd", "#H1FF", "#B101", "-3", "1.5", "2.5", "#Q17"};
 
 static void emit(scpi_t * c, int kind) {
     switch (kind) {
@@ -51,11 +56,17 @@ static void emit(scpi_t * c, int kind) {
         case 2: SCPI_ResultText(c, "x"); break;
         case 3: SCPI_ResultMnemonic(c, "M"); break;
         case 4: SCPI_ResultArbitraryBlock(c, "a", 1); break;
-        default:
+        case 5:
             SCPI_ResultArbitraryBlockHeader(c, 2);
             SCPI_ResultArbitraryBlockData(c, "c", 1);
             SCPI_ResultArbitraryBlockData(c, "d", 1);
             break;
+        case 6: SCPI_ResultUInt64Base(c, 0x1FF, 16); break;
+        case 7: SCPI_ResultUInt32Base(c, 5, 2); break;
+        case 8: SCPI_ResultInt64(c, -3); break;
+        case 9: vm_snprintf_text = "1.5"; SCPI_ResultDouble(c, 1.5); break;
+        case 10: vm_snprintf_text = "2.5"; SCPI_ResultFloat(c, 2.5f); break;
+        default: SCPI_ResultUInt64Base(c, 15, 8); break;
     }
 }
 
@@ -66,7 +77,7 @@ static scpi_result_t handler(scpi_t * c) {
     for (i = 0; i < MAXI; i++) {
         if (i < n) {
             if ((vin.push_at[u] & 7) == i + 1) SCPI_ErrorPush(c, SCPI_ERROR_EXECUTION_ERROR);
-            emit(c, vin.kind[u * MAXI + i] % 6);
+            emit(c, KBASE + vin.kind[u * MAXI + i] % 6);
         }
     }
     if ((vin.push_at[u] & 7) == 5) SCPI_ErrorPush(c, SCPI_ERROR_EXECUTION_ERROR);
@@ -117,7 +128,7 @@ void harness(void) {
             for (i = 0; i < MAXI; i++) {
                 if (i < n) {
                     if (i > 0) app(",");
-                    app(item_text[vin.kind[u * MAXI + i] % 6]);
+                    app(item_text[KBASE + vin.kind[u * MAXI + i] % 6]);
                 }
             }
             any = 1;
